@@ -636,7 +636,7 @@ ASSUME_G = [
 reg("C07", ["Props.C07_cp_is_own_plus_distinct_descendants", "GM.C07_cp_order_independent", "GM.mem_descAll_iff",
             "GM.descAll_nodup", "Props.C07_pinned_counts_paths", "GM.C07_pinned_order_dependent"],
     run_G, ASSUME_G)
-reg("C12", ["GM.C12_closure", "Props.C12_selection_is_closure", "GM.selectNodes_none", "GM.mem_descAll_iff"], run_G, ASSUME_G)
+reg("C12", ["GM.C12_closure", "Props.C12_selection_is_closure", "GM.selectNodes_none", "GM.mem_descAll_iff", "Props.C12_restriction_keeps_values"], run_G, ASSUME_G)
 reg("C13", ["Props.C13_pulled_debug_has_inputs", "Props.C13_flag_off_no_debug", "Props.C12_selection_is_closure"], run_G, ASSUME_G)
 
 
@@ -1133,6 +1133,9 @@ def run_C(pid, tier, seed):
             a = ans.get(tid, {}).get(q)
             if a is None:
                 raise common.HarnessError("no model answer for %s/%d" % (tid, q))
+            if a[0] == "OPEN":
+                failures.append(Failure("proof", "C19-closure-hypothesis-fails-on-instance", sc, dict(case=case), slice_="C"))
+                continue
             if a[0] in ("MISSING", "INPUTDEP"):
                 model = ("VALUEERROR",)
             elif a[0] == "OK":
@@ -1156,7 +1159,7 @@ ASSUME_C = [
     "node functions deterministic; alias resolution modelled in the harness",
     "the composed DAG's fresh parameter ids are glue (the model keeps the node's index and makes it a precomputed holder)",
 ]
-reg("C19", ["Props.C18_restart_same", "Props.C01_core"], run_C, ASSUME_C)
+reg("C19", ["Props.C19_compose_computes_outputs_partial", "Props.C12_restriction_keeps_values", "VM.C19_original_unchanged", "Props.C01_core"], run_C, ASSUME_C)
 
 
 # ---------------------------------------------------------------------------------------------
@@ -1297,5 +1300,5 @@ def run_A(pid, tier, seed):
     return coverage, failures, None
 
 
-reg("C17", ["Props.C17c_partial", "Props.C17c_mixed_witness", "Props.C01_core", "Props.acceptor_sound"], run_A,
+reg("C17", ["Props.C17b_concurrent_awaits_isolated", "VM.prun_proj", "Props.C17c_partial", "Props.C17c_mixed_witness", "Props.C01_core", "Props.acceptor_sound"], run_A,
     ASSUME_V + ["the event loop's own fairness is trusted (asyncio)", "both flavours run the same coroutine async_execute (DAG drives it with asyncio.run): flavour equality is definitional in the model, the content is in the tie"])
